@@ -435,6 +435,20 @@ Fixpoint c_run (default : N) (c : cache) (h : list (N * cop)) : cache * list (op
     (c2, r :: rs)
   end.
 
+(* calculateNegativeTtl (the putNegative overload without an explicit TTL, RFC 2308): min(MINIMUM, TTL) of the first
+   parsed SOA record; failing that the TTL of the first SOA record of the raw authority section (is_soa, ttl); failing
+   that the default *)
+Definition neg_ttl (default : N) (soas : list (N * N)) (auth : list (bool * N)) : N :=
+  match soas with
+  | (mn, ttl) :: _ => N.min mn ttl
+  | [] => match find fst auth with
+          | Some (_, ttl) => ttl
+          | None => default
+          end
+  end.
+Definition cput_neg_auto (default : N) (n : list N) (ty cl v : N) (soas : list (N * N)) (auth : list (bool * N)) : cop :=
+  CPutNeg n ty cl v (neg_ttl default soas auth).
+
 (* calculateResultTtl: minimum TTL over all record lists, default when there is none *)
 Definition min_ttl (default : N) (ttls : list N) : N :=
   match ttls with
